@@ -1,5 +1,6 @@
 """C14 — field option letters decide the variant and are preserved."""
 from .common import Report
+from . import emit
 from . import grules, options
 
 LEVEL = "other"
@@ -25,4 +26,5 @@ def run(F, tier):
     grules.g7(rep, tms, F)
     rep.sample({"enum": "Field59", "arguments": ["None", 'Some("")', 'Some("A")', "..."],
                 "rule": "O1 evaluates the match arms statically"})
+    emit.e1(rep, F, "fields")
     return rep
